@@ -233,6 +233,55 @@ func cmdCheck(args []string) int {
 		violLines = append(violLines, line)
 	}
 
+	// bounded stand-ins for this property (reported separately, never counted as discharged)
+	var boundedResults []*BoundedResult
+	if *only == "" && os.Getenv("GOVC_NOBOUNDED") == "" {
+		for _, bs := range loadBoundedSpecs(*verif) {
+			if !contains(bs.Props, *prop) || (bs.Tiers == "thorough" && *tier != "thorough") {
+				continue
+			}
+			br := runBounded(*repo, bs, *tier, seed)
+			boundedResults = append(boundedResults, br)
+			if br.Error != "" && len(br.Failures) == 0 {
+				fmt.Printf("BOUNDED %s: could not run: %.300s\n", br.Name, br.Error)
+				nViol++
+				os.MkdirAll(replayDir, 0o755)
+				rp := filepath.Join(replayDir, "bounded_"+br.Name+"_cannot_run.json")
+				data, _ := json.MarshalIndent(map[string]interface{}{"property": *prop, "bounded": br.Name, "error": br.Error}, "", " ")
+				os.WriteFile(rp, data, 0o644)
+				violLines = append(violLines, fmt.Sprintf("VIOLATION property=%s replay=%s no-failing-input-found", *prop, rp))
+				continue
+			}
+			fmt.Printf("BOUNDED %s: %d evaluations (%d non-trivial), %d failing, %.1fs; bound: %s\n", br.Name, br.Evaluations, br.Distinct, len(br.Failures), br.WallS, br.Bound)
+			seenFinding := map[string]bool{}
+			for i, f := range br.Failures {
+				if f.Finding != "" {
+					var kfm *KnownFinding
+					for j := range known.Findings {
+						if known.Findings[j].ID == f.Finding && !*noKnown {
+							kfm = &known.Findings[j]
+						}
+					}
+					if kfm != nil {
+						if !seenFinding[f.Finding] {
+							seenFinding[f.Finding] = true
+							nKnown++
+							knownLines = append(knownLines, fmt.Sprintf("KNOWN-FINDING: property=%s bounded(%s) %s [e.g. %s: %s]", *prop, br.Name, kfm.What, f.Input, f.Why))
+						}
+						continue
+					}
+				}
+				nViol++
+				os.MkdirAll(replayDir, 0o755)
+				rp := filepath.Join(replayDir, fmt.Sprintf("bounded_%s_%d.json", br.Name, i+1))
+				data, _ := json.MarshalIndent(map[string]interface{}{"property": *prop, "bounded": br.Name, "bound": br.Bound, "failing_input": f.Input, "why": f.Why,
+					"how_to_rerun": fmt.Sprintf("inject %s as %s into the package and run go test -run %s", "/verif/bounded/*.go.txt", "its header's file=", "its header's run=")}, "", " ")
+				os.WriteFile(rp, data, 0o644)
+				violLines = append(violLines, fmt.Sprintf("VIOLATION property=%s replay=%s", *prop, rp))
+			}
+		}
+	}
+
 	printReport(rep, false)
 	for _, l := range knownLines {
 		fmt.Println(l)
@@ -269,7 +318,23 @@ func cmdCheck(args []string) int {
 		trusted = append(trusted, "assumed contract: "+t)
 	}
 	trusted = append(trusted, "solvers: z3-new 5.1.0 (live incremental), z3 4.8.12, cvc5 1.0.3", "golang.org/x/tools v0.29.0 go/ssa + go/types", "/verif/govc (this verifier)")
-	ev := Evidence{PropertyID: *prop, Tier: *tier, Seed: seed, Level: "proof", WallS: time.Since(t0).Seconds(), Violations: nViol, Assumptions: assumptions}
+	level := "proof"
+	bEvals, bDistinct := 0, 0
+	var bSamples []interface{}
+	var bRules []string
+	for _, br := range boundedResults {
+		bEvals += br.Evaluations
+		bDistinct += br.Distinct
+		bSamples = append(bSamples, br.Samples...)
+		bRules = append(bRules, br.Name+": "+br.Rule+" Bound: "+br.Bound)
+	}
+	if rep.Obligations == 0 && len(boundedResults) > 0 {
+		level = "exploration"
+	}
+	if lv := levelOverride(*verif, *prop); lv != "" {
+		level = lv
+	}
+	ev := Evidence{PropertyID: *prop, Tier: *tier, Seed: seed, Level: level, WallS: time.Since(t0).Seconds(), Violations: nViol, Assumptions: assumptions}
 	ev.Coverage = map[string]interface{}{
 		"obligations":              rep.Obligations,
 		"discharged":               rep.Discharged,
@@ -287,12 +352,22 @@ func cmdCheck(args []string) int {
 		"obligation_list":          compactObligs(rep.Obligs),
 		"functions":                rep.Functions,
 	}
+	if len(boundedResults) > 0 {
+		ev.Coverage["bounded_parts"] = boundedResults
+		ev.Coverage["bounded_note"] = "bounded stand-ins: finite enumeration against the real function; NOT part of obligations/discharged"
+		ev.Coverage["evaluations"] = bEvals
+		ev.Coverage["distinct_nontrivial"] = bDistinct
+		ev.Coverage["rule"] = strings.Join(bRules, " | ")
+		if level != "proof" {
+			ev.Coverage["samples"] = append(bSamples, samples...)
+		}
+	}
 	evPath := filepath.Join(*verif, "evidence", *prop+".json")
 	os.MkdirAll(filepath.Dir(evPath), 0o755)
 	data, _ := json.MarshalIndent(ev, "", " ")
 	os.WriteFile(evPath, data, 0o644)
 
-	if rep.Obligations == 0 {
+	if rep.Obligations == 0 && bEvals == 0 {
 		fmt.Println("no obligations generated for", *prop, "- cannot decide (vacuity guard)")
 		return 2
 	}
@@ -311,3 +386,17 @@ func compactObligs(os []ObligReport) []map[string]interface{} {
 }
 
 var _ = strings.TrimSpace
+
+// levelOverride: /verif/levels.json may pin the evidence level of a property
+// whose deciding part is a bounded stand-in.
+func levelOverride(verif, prop string) string {
+	data, err := os.ReadFile(filepath.Join(verif, "levels.json"))
+	if err != nil {
+		return ""
+	}
+	m := map[string]string{}
+	if json.Unmarshal(data, &m) != nil {
+		return ""
+	}
+	return m[prop]
+}
